@@ -1,2 +1,2 @@
 //! instantiations of the interpolator zoo: rec / f64 (see vh-core::dynapi)
-vh_core::def_with2!(with, f64, rec, [oo full] [oo lean] [oo lean] [oo lean] [oo lean] [oo full]);
+vh_core::def_with2!(with, f64, rec, [oo full] [oo lean] [oo lean] [oo lean] [oo lean] [all full]);
